@@ -806,6 +806,9 @@ theorem processModule_start {proj : Project} {s : St} (hI : PdInv proj s) {m : N
   have hbody : bodyOf proj m = proj[m].body := bodyOf_eq hmd
   have hI2 : PdInv proj s2 :=
     { reg := hreg2 ▸ hI.reg
+      cbase := by
+        have := hI.cbase
+        rw [← hs2]; exact this
       lens := by rw [← hs2]; simp [hI.lens]
       mods := by rw [hreg2]; exact hI.mods
       site := by rw [hreg2]; exact hI.site
